@@ -112,6 +112,8 @@ func checkC15(c *Check) {
 	ruleSyntheticEOF(c, p, "R15.4")
 	ruleOrderingGoroutineLatch(c, p, "R15.5")
 	ruleBlocksCloseLatch(c, p, "R15.6")
+	ruleReadValueAfterCheck(c, p, "R15.10")
+	c.RuleDoc["R15.10"] = "the word returned by a source read is used only after its error was tested (a failed read is reported as the source's error, not as a verdict on unread data)"
 	ruleStickyError(c, p, "R15.9")
 	c.RuleDoc["R15.9"] = "= R17.16: once a sink or source error has put the object in errorState every later call reports it"
 	ruleStreamsThroughInterface(c, p, "R15.8")
